@@ -92,6 +92,19 @@ Definition rank (v : view) (x : Q) : outcome (option Q) :=
 (* ---------------- TDigestView::quantile ---------------- *)
 Definition weighted_average (x1 w1 x2 w2 : Q) : Q := (x1 * w1 + x2 * w2) / (w1 + w2).
 
+(* the body of `if weight_so_far + dw > weight { .. }`: the target weight is between
+   centroids i and i+1 (every path returns) *)
+Definition q_gap (ci cj : centroid) (wsf dw weight : Q) : Q :=
+  let left_unit := Pos.eqb (snd ci) 1 in
+  if left_unit && Qltb (weight - wsf) (1#2) then c_mean ci else
+  let left_weight := if left_unit then 1#2 else 0 in
+  let right_unit := Pos.eqb (snd cj) 1 in
+  if right_unit && Qle_bool (wsf + dw - weight) (1#2) then c_mean cj else
+  let right_weight := if right_unit then 1#2 else 0 in
+  let w1 := weight - wsf - left_weight in
+  let w2 := wsf + dw - weight - right_weight in
+  weighted_average (c_mean ci) w2 (c_mean cj) w1.
+
 (* the interpolation loop; [wsf2] = 2 * weight_so_far (an integer) *)
 Fixpoint q_loop (cs : list centroid) (wsf2 : Z) (weight : Q) : option Q :=
   match cs with
@@ -99,16 +112,7 @@ Fixpoint q_loop (cs : list centroid) (wsf2 : Z) (weight : Q) : option Q :=
       let dw2 := (c_wz ci + c_wz cj)%Z in
       let wsf := inject_Z wsf2 / 2 in
       let dw := inject_Z dw2 / 2 in
-      if Qltb weight (wsf + dw) then
-        let left_unit := Pos.eqb (snd ci) 1 in
-        if left_unit && Qltb (weight - wsf) (1#2) then Some (c_mean ci) else
-        let left_weight := if left_unit then 1#2 else 0 in
-        let right_unit := Pos.eqb (snd cj) 1 in
-        if right_unit && Qle_bool (wsf + dw - weight) (1#2) then Some (c_mean cj) else
-        let right_weight := if right_unit then 1#2 else 0 in
-        let w1 := weight - wsf - left_weight in
-        let w2 := wsf + dw - weight - right_weight in
-        Some (weighted_average (c_mean ci) w2 (c_mean cj) w1)
+      if Qltb weight (wsf + dw) then Some (q_gap ci cj wsf dw weight)
       else q_loop r (wsf2 + dw2)%Z weight
   | _ => None
   end.
